@@ -35,11 +35,15 @@ type rlcCase struct {
 	// barrier together, so that their first requests from an address the limiter has never seen arrive within
 	// nanoseconds of each other
 	Rounds int `json:"rounds"`
+	// Big > 0: afterwards a limiter with a global budget of Big requests (4000-16000) and a per-IP burst of half of it
+	// is used by one busy address (a fifth of the budget) and 400 others sending one request each: all of it is
+	// within every limit and within the global budget, so nothing may be refused - whichever addresses they are
+	Big int `json:"big,omitempty"`
 }
 
 func genRLC(t *rapid.T) rlcCase {
 	return rlcCase{IPBurst: rapid.IntRange(1, 6).Draw(t, "ipburst"), ConnBurst: pick(t, "connburst", 0, 1, 2, 3), Senders: rapid.IntRange(2, 8).Draw(t, "senders"), Conns: rapid.IntRange(1, 4).Draw(t, "conns"),
-		Each: rapid.IntRange(1, 12).Draw(t, "each"), Others: rapid.IntRange(1, 10).Draw(t, "others"), Slack: rapid.IntRange(0, 2).Draw(t, "slack"), Known: rapid.IntRange(0, 3).Draw(t, "known") == 0, Rounds: rapid.IntRange(1, 8).Draw(t, "rounds")}
+		Each: rapid.IntRange(1, 12).Draw(t, "each"), Others: rapid.IntRange(1, 10).Draw(t, "others"), Slack: rapid.IntRange(0, 2).Draw(t, "slack"), Known: rapid.IntRange(0, 3).Draw(t, "known") == 0, Rounds: rapid.IntRange(1, 8).Draw(t, "rounds"), Big: pick(t, "big", 0, 0, 0, 4000, 8000, 16000)}
 }
 
 func runRLC(tb stat.TB, c rlcCase, id, check string) {
@@ -118,6 +122,27 @@ func runRLC(tb stat.TB, c rlcCase, id, check string) {
 	if refused > 0 {
 		stat.Violate(tb, id, check, "compliant-client-refused-with-global-room", c, "after one address had sent %d overlapping requests (%d admitted, per-IP burst %d), %d of %d clients sending their first request were refused although the global burst %d had room for all of them", sent, total.Load(), c.IPBurst, refused, c.Others, cfg.GlobalRequestsPerSecond)
 		return
+	}
+	if c.Big > 0 {
+		bc := absnfs.DefaultRateLimiterConfig()
+		bc.GlobalRequestsPerSecond = c.Big
+		bc.PerIPRequestsPerSecond, bc.PerIPBurstSize = 1, c.Big/2
+		bc.PerConnectionRequestsPerSecond, bc.PerConnectionBurstSize = 0, 0
+		bc.CleanupInterval = time.Hour
+		brl := absnfs.NewRateLimiter(bc)
+		busy := c.Big / 5
+		for i := 0; i < busy; i++ {
+			if !brl.AllowRequest("10.9.0.1", "conn-busy") {
+				stat.Violate(tb, id, check, "compliant-client-refused-with-global-room", c, "request %d of an address whose per-IP burst is %d was refused although only %d requests had been admitted of a global budget of %d", i+1, c.Big/2, i, c.Big)
+				return
+			}
+		}
+		for i := 0; i < 400; i++ {
+			if !brl.AllowRequest(fmt.Sprintf("10.9.%d.%d", 1+i/200, 2+i%200), fmt.Sprintf("conn-o%d", i)) {
+				stat.Violate(tb, id, check, "compliant-client-refused-with-global-room", c, "the first request of address #%d was refused although only %d requests had been admitted of a global budget of %d", i, busy+i, c.Big)
+				return
+			}
+		}
 	}
 	stat.Case(c, sent > c.IPBurst)
 }
